@@ -16,7 +16,10 @@ for l in out.splitlines():
     parts=l.split()
     if len(parts)>=3 and parts[1].endswith(':'):
         prop=parts[1][:-1]
-        entry={"check":f"./run {prop} quick","result":' '.join(parts[2:])}
+        import os
+        seed=os.environ.get("VERIF_SEED","0")
+        name=f"./run {prop} quick" if seed=="0" else f"VERIF_SEED={seed} ./run {prop} quick"
+        entry={"check":name,"result":' '.join(parts[2:])}
         m['checks_run']=[c for c in m['checks_run'] if c['check']!=entry['check']]+[entry]
         if 'caught' in parts[2]:
             if prop not in m['caught_by']: m['caught_by'].append(prop)
